@@ -458,7 +458,14 @@ func sweep(args []string) *Result {
 		res.Cases++
 		replay := map[string]any{"kind": "sweep", "project": s.name, "text": s.text, "path": s.path}
 		if checks["c06"] {
-			if sig, what := checkC06(s, 3); sig != "" {
+			k := 3
+			if strings.HasPrefix(s.name, "depmap:") {
+				k = 40
+			}
+			if sig, what := checkC06(s, k); sig != "" {
+				if strings.HasPrefix(s.name, "depmap:") {
+					sig = "c06:dependency-map-order:" + strings.TrimPrefix(s.name, "depmap:")
+				}
 				res.mismatch(sig, s.name+": "+what, replay)
 			}
 		}
